@@ -1164,6 +1164,77 @@ M("C03", "R-demand-built-with-helper-local", FABF,
         )''', '''        months_off = self.NMONTHS - biofuel_duration
         biofuels_fat = [self.biofuel_monthly_usage.fat] * biofuel_duration + [0] * months_off''', None)
 
+# ---------------------------------------------------------------------------- C05
+MDF = "src/food_system/meat_and_dairy.py"
+M("C05", "pigs-use-chicken-yield", MDF,
+  '''            + init_pigs_culled * self.KCALS_PER_PIG
+            + init_small_animals_nonchicken_culled * self.KCALS_PER_SMALL_ANIMAL''',
+  '''            + init_pigs_culled * self.KCALS_PER_CHICKEN
+            + init_small_animals_nonchicken_culled * self.KCALS_PER_SMALL_ANIMAL''', "C05.MEAT")
+M("C05", "distribution-waste-dropped", MDF,
+  '''            initial_meat_prewaste * (1 - self.MEAT_WASTE_DISTRIBUTION / 100),''', '''            initial_meat_prewaste,''', "C05.MEAT")
+M("C05", "retail-waste-applied-twice", MDF,
+  '''            initial_meat_prewaste * (1 - self.MEAT_WASTE_DISTRIBUTION / 100),''',
+  '''            initial_meat_prewaste * (1 - self.MEAT_WASTE_DISTRIBUTION / 100) * (1 - self.MEAT_WASTE_RETAIL / 100),''', "C05.MEAT")
+M("C05", "pig-yield-uses-small-kcal", MDF,
+  '''            self.MEDIUM_ANIMAL_KCALS_PER_KG * constants_inputs["KG_MEAT_PER_PIG"] / 1e9''',
+  '''            self.SMALL_ANIMAL_KCALS_PER_KG * constants_inputs["KG_MEAT_PER_PIG"] / 1e9''', "C05.MEAT")
+M("C05", "monthly-series-off-by-one", MDF,
+  '''                init_pigs_culled=pigs_culled[m],''', '''                init_pigs_culled=pigs_culled[m - 1],''', "C05.MEAT")
+M("C05", "milk-retail-waste-dropped", MDF,
+  '''            * self.MILK_KCALS
+            / 1e9
+            * (1 - self.MILK_WASTE_DISTRIBUTION / 100)
+            * (1 - self.MILK_WASTE_RETAIL / 100)''', '''            * self.MILK_KCALS
+            / 1e9
+            * (1 - self.MILK_WASTE_DISTRIBUTION / 100)''', "C05.MILK")
+M("C05", "milk-annual-not-monthly", PARF,
+  '''            * constants_inputs["MILK_YIELD_KG_PER_MILK_BEARING_ANIMAL_PER_YEAR"]
+            / 12
+            / 1000''', '''            * constants_inputs["MILK_YIELD_KG_PER_MILK_BEARING_ANIMAL_PER_YEAR"]
+            / 1000''', "C05.MILK")
+M("C05", "milk-herd-is-dairy-cows-only", PARF,
+  '''        dairy_population = feed_meat_object.get_total_milk_bearing_animals()''',
+  '''        dairy_population = feed_meat_object.get_total_dairy_cows()''', "C05.MILK")
+M("C05", "medium-arm-feeds-large-lane", ANIMF,
+  '''                animals_killed_for_meat_medium_nonpig += np.array(
+                    animal.slaughter
+                )''', '''                animals_killed_for_meat_large += np.array(
+                    animal.slaughter
+                )''', "C05.CLASS")
+M("C05", "return-order-swapped", ANIMF,
+  '''            animals_killed_for_meat_small_nonchicken,
+            animals_killed_for_meat_medium_nonpig,
+            animals_killed_for_meat_large,
+        )''', '''            animals_killed_for_meat_medium_nonpig,
+            animals_killed_for_meat_small_nonchicken,
+            animals_killed_for_meat_large,
+        )''', "C05.CLASS")
+M("C05", "priority-chain-predicate-changed", ANIMF,
+  '''            elif animal.animal_size == "medium" and animal.animal_type != "pig":
+                kcals_per_head_meat = kcals_per_head_meat_dict[''', '''            elif animal.animal_size == "medium":
+                kcals_per_head_meat = kcals_per_head_meat_dict[''', "C05.CLASS")
+M("C05", "running-total-of-other-series", PARF,
+  '''        time_consts["max_consumed_culled_kcals_each_month"] = (
+            each_month_meat_slaughtered.get_running_total_nutrients_sum().kcals
+        )''', '''        time_consts["max_consumed_culled_kcals_each_month"] = (
+            each_month_meat_slaughtered.kcals
+        )''', "C05.CLASS")
+M("C05", "round3-charges-round2-feed-sum", PARF,
+  '''        time_consts_round3["feed"] = feed_used_round3''', '''        time_consts_round3["feed"] = feed_sum_billion_kcals''', "C05.FEEDGE")
+M("C05", "round3-feed-capped-after-bump", PARF,
+  '''            assert (feed_used_round3_copy <= feed_used_round3.kcals).all()''',
+  '''            feed_used_round3.kcals = np.minimum(feed_used_round3.kcals, feed_used_round3_copy)''', "C05.FEEDGE")
+M("C05", "round1-herd-offered-demand", PARF,
+  '''            available_feed=zero_feed,''', '''            available_feed=feed_demand,''', "C05.ZERO")
+M("C05", "R-meat-sum-reordered", MDF,
+  '''            init_chickens_culled * self.KCALS_PER_CHICKEN
+            + init_pigs_culled * self.KCALS_PER_PIG
+            + init_small_animals_nonchicken_culled * self.KCALS_PER_SMALL_ANIMAL''',
+  '''            init_pigs_culled * self.KCALS_PER_PIG
+            + self.KCALS_PER_CHICKEN * init_chickens_culled
+            + init_small_animals_nonchicken_culled * self.KCALS_PER_SMALL_ANIMAL''', None)
+
 # ---------------------------------------------------------------------------- runner
 
 COPY = ["src", "scenarios", "scripts", "plot_manuscript_figures.py", "tests"]
